@@ -231,7 +231,10 @@ def case_helper(case, col=None):
         rd = [(n, R.resolve_spelling(n).dim) for n in ru]
         for i in range(len(rd)):
             for j in range(i + 1, len(rd)):
-                if proportional(rd[i][1], rd[j][1]):
+                both_dimensionless = not rd[i][1] and not rd[j][1] and bool(d0)
+                # (two different dimensionless units - radian and degree, percent and ppm - are the same dimension to the power 1: they merge
+                # too when the quantity as a whole is not dimensionless)
+                if proportional(rd[i][1], rd[j][1]) or both_dimensionless:
                     raise Violation("reduced_units_still_mergeable", f"to_reduced_units on {units}: {dict(r._units)} keeps {rd[i][0]} and {rd[j][0]} (same dimension up to a power)")
     if helper in ("compact", "compact_unit"):
         check_compact(R, ureg, m, units, q, r, helper, col)
